@@ -34,6 +34,7 @@ CATEGORY = {
     "transits_0": ("transits", 0), "transits_1": ("transits", 1), "transits_3": ("transits", 3), "transits_1_nodepot": ("transits", 1),
     "elim_fo": ("elimination", "FO"), "elim_mm": ("elimination", "MM"), "elim_mix": ("elimination", "MIX-FO-MM"), "elim_zo": ("elimination", "ZO"),
     "bio_add": ("bioavailability", True), "bio_remove": ("bioavailability", False),
+    "metabolite": ("metabolite", True), "effect_cmt": ("effect", True),
 }
 DEFAULT = {"transits": 0, "lagtime": False, "absorption": "FO"}
 COUPLED = {"absorption", "transits", "lagtime"}
@@ -56,7 +57,9 @@ def may_reset(cat, val):
 def alphabet(tier, depth):
     from vlib import mgraph
 
-    return list(mgraph.ops("structural"))
+    # metabolite and effect compartment: requested only on states that are at most one step from a start model (they take the
+    # system out of the ADVAN library, which makes every later step expensive)
+    return list(mgraph.ops("structural")) + (["metabolite", "effect_cmt"] if depth <= 1 else [])
 
 
 def depth_limit(tier):
@@ -101,6 +104,8 @@ def features(model):
         "transits": pm.get_number_of_transit_compartments(model),
         "lagtime": bool(__import__("pharmpy.modeling.odes", fromlist=["x"]).has_lag_time(model)),
         "bioavailability": bool(bio),
+        "metabolite": cs.find_compartment("METABOLITE") is not None,
+        "effect": cs.find_compartment("EFFECT") is not None,
     }
 
 
